@@ -118,6 +118,8 @@ def lower_body(body, cls=None, methods=(), members=(), objs=None, ptr_objs=None,
             log.hit('R3 ' + kw, 1)
     # R3 references in local declarations:  const T& x = e;  ->  const T x = e;   (value copy; only scalars)
     b = _sub(log, 'R3 scalar ref local', r'\b(const\s+(?:uint8_t|uint16_t|uint32_t|uint64_t|size_t|int|bool))\s*&\s*(\w+)\s*=', r'\1 \2 =', b)
+    # R3 direct initialisation of scalars:  uint16_t i(0);  ->  uint16_t i = 0;
+    b = _sub(log, 'R3 scalar direct-init', r'\b((?:const\s+)?(?:uint8_t|uint16_t|uint32_t|uint64_t|int|unsigned|size_t|bool))\s+(\w+)\(([^()]*)\)\s*;', r'\1 \2 = \3;', b)
     # R3 namespaces that are pure qualification
     b = _sub(log, 'R3 std::', r'\bstd::(memcpy|memset|memcmp|memmove|min|max|size_t)\b', r'\1', b)
     b = _sub(log, 'R3 Memory::', r'\bMemory::(?=InputMemoryStream|OutputMemoryStream)', '', b)
@@ -161,7 +163,8 @@ def lower_body(body, cls=None, methods=(), members=(), objs=None, ptr_objs=None,
             b = _rewrite_calls(b, r'(?<![\w.>])' + ve + r'\s*\.\s*(\w+)\s*(?:<\s*([\w:\s\*]+?)\s*>)?\s*(?=\()', call, log, 'R2 obj.method')
             # boolean conversion: if (stream) / while (stream) / !stream
             b = _sub(log, 'R2 obj bool', r'\b(if|while)\s*\(\s*(!?)\s*' + ve + r'\s*\)', r'\1 (\2%s_bool(%s%s))' % (c, addr, v), b)
-            b = _sub(log, 'R2 obj bool', r'(&&|\|\|)\s*(!?)\s*' + ve + r'\s*\)', r'\1 \2%s_bool(%s%s))' % (c, addr, v), b)
+            b = _sub(log, 'R2 obj bool', r'(&&|\|\|)\s*(!?)\s*' + ve + r'\s*(\)|&&|\|\|)', r'\1 \2%s_bool(%s%s) \3' % (c, addr, v), b)
+            b = _sub(log, 'R2 obj bool', r'\b(if|while)\s*\(\s*(!?)\s*' + ve + r'\s*(&&|\|\|)', r'\1 (\2%s_bool(%s%s) \3' % (c, addr, v), b)
 
     if cls:
         # R1 members (trailing underscore convention, or explicit list)
